@@ -8,6 +8,11 @@ from .relmodel import Slot, Tab
 from .symx import SymBool, SymInt, zint
 
 
+def take(iterable, limit=200):
+    from .common import take as _take
+    return _take(iterable, limit)
+
+
 class SymDB:
     """table name -> Tab (unordered); CREATE TABLE AS = bind a new name."""
 
@@ -90,7 +95,7 @@ def make_processor(db, log, lazy=False):
                 # "appropriate for caching" is only asked of the payload when a materialization follows: hand out the lazy iterable
                 return source.engine.execute(source)
             else:
-                rows = [dict(r) for r in source.engine.execute(source)]
+                rows = [dict(r) for r in take(source.engine.execute(source))]
             if isinstance(destination, sql.Engine):
                 name = materialize_as or destination.get_relation_name("tmp")
                 return db.table_payload(name, list(source.columns), rows_to_tab(rows, list(source.columns)))
@@ -112,4 +117,4 @@ def evaluate(rel, db):
 
     if isinstance(rel.engine, sql.Engine):
         return db.run(rel.engine.to_executable(rel))
-    return [dict(r) for r in rel.engine.execute(rel)]
+    return [dict(r) for r in take(rel.engine.execute(rel))]
